@@ -575,6 +575,26 @@ class Models:
                         return some(pi.items.pop())
                     return none()
                 raise Inconclusive('next_back on %r' % (tgt,))
+            if tb == 'DoubleEndedIterator' and name in ('rfold', 'rfind', 'nth_back', 'rev', 'try_rfold'):
+                self.called['DoubleEndedIterator::' + name] = self.called.get('DoubleEndedIterator::' + name, 0) + 1
+                items = list(iter_drain(it, args[0]))
+                items.reverse()
+                if name == 'rev':
+                    return Opaque('Rev', PyIter(items))
+                if name == 'rfold':
+                    acc = args[1]
+                    for x in items:
+                        acc = it.call_value(args[2], [acc, x])
+                    return acc
+                if name == 'rfind':
+                    for x in items:
+                        if truthy(it, it.call_value(args[1], [Ref([x], 0)])):
+                            return some(x)
+                    return none()
+                if name == 'nth_back':
+                    n = args[1]
+                    return some(items[n]) if (not is_sym(n) and n < len(items)) else none()
+                raise Inconclusive('DoubleEndedIterator::%s' % name)
             if tb == 'Clone' and name == 'clone':
                 self.called['Clone::clone'] = self.called.get('Clone::clone', 0) + 1
                 return deep_clone(deref(args[0]))
